@@ -11,6 +11,13 @@ Tie to /repo (C, hand-written model + correspondence):
   * tree stream: random expression trees built with the real expression classes over real
     default_ops / proximal leaves vs the model's `callO` / `callI` on the same tree, in the
     three modes out-of-place, in-place (garbage / NaN / inf in out), aliased (out is x);
+  * the trees and block matrices also contain `accum`, a harness-defined leaf that obeys the call
+    protocol but is deliberately NOT alias safe (it overwrites out before reading x); aliased
+    modes are skipped for such trees (C03 is about x != out);
+  * wrapper strata (oracle): every expression / product-space class with an in-place branch x
+    {accum, accum with junk, Laplacian, PartialDerivative, RosenbrockFunctional.gradient, square
+    MatrixOperator} directly underneath x {default, cached temporaries tmp / tmp_ran / tmp_dom},
+    called in place with x, out distinct; the expected value is composed from the leaf alone;
   * product-space stream: ProductSpaceOperator (random sparsity, several blocks per row, empty
     rows), BroadcastOperator, ReductionOperator, DiagonalOperator (also aliased),
     ComponentProjection, ComponentProjectionAdjoint with random trees as blocks vs the model.
@@ -1098,6 +1105,22 @@ def run_dispatch(ctx, cases=None, model=True):
 # real operators from the wire tokens (the same tokens the Lean driver parses): a recorded
 # tree / block matrix can be rebuilt exactly by `replay`
 
+def synth_accum(space, c, junk=0.0):
+    """Harness-defined operator that obeys the call protocol but is deliberately NOT alias safe:
+    `_call(x, out)` first overwrites `out` and only then accumulates from `x` (legal: the
+    protocol promises nothing for an aliased call of a leaf). domain == range, so every wrapper
+    could try to reuse `out` (or `x`) as its temporary."""
+    import odl
+
+    class SynthAccum(odl.Operator):
+        def _call(self, x, out):
+            out[:] = junk
+            out.lincomb(1, out, c, x)
+            if junk:
+                out -= junk
+    return SynthAccum(space, space, linear=False)
+
+
 def unvec(tok):
     return np.array([unbits(t) for t in tok.split('|')], dtype=float)
 
@@ -1146,6 +1169,8 @@ def real_from_tokens(toks, data):
         return odl.MultiplyOperator(space.element(unvec(parts[1]))), rest
     if k == 'pow':
         return odl.PowerOperator(space, unbits(parts[1])), rest
+    if k == 'accum':
+        return synth_accum(space, unbits(parts[1])), rest
     if k == 'zero':
         return odl.ZeroOperator(space), rest
     if k == 'modsq':
@@ -1216,7 +1241,10 @@ def rand_tree(rng, depth, n, data):
 
     def leaf():
         k = rng.choice(['scal', 'scal', 'const', 'mult', 'pow', 'zero', 'modsq', 'prox', 'prox',
-                        'prox', 'id', 'real'])
+                        'prox', 'id', 'real', 'accum', 'accum', 'accum'])
+        if k == 'accum':
+            c = rng.choice([2.0, -1.0, 0.5, 3.0])
+            return ['accum:{}'.format(bits(c))], (lambda: synth_accum(space, c)), 'accum'
         if k == 'real':
             # RealPart on a real space returns its argument itself
             return ['real'], (lambda: odl.RealPart(space)), 'real'
@@ -1358,8 +1386,9 @@ def eval_tree(ctx, case, lines, pend):
     res['ip'] = safe_call(op, x, out=y)
     xa['ip'] = snapshot(x)
     isout_ip = res['ip'].obj is y
+    alias_ok = 'accum' not in case['tokens']    # a leaf may be non-alias-safe: C03 is x != out
     x = space.element(xv.copy())
-    res['alias'] = safe_call(op, x, out=x)
+    res['alias'] = safe_call(op, x, out=x) if alias_ok else Outcome('skipped')
     xa['alias'] = snapshot(x)
     isout_al = res['alias'].obj is x
     key = 'tree {}'.format(shape[:120])
@@ -1371,6 +1400,8 @@ def eval_tree(ctx, case, lines, pend):
         if not bitsame(xa['oop'], xv):
             ctx.violation(key + ' check=input-unchanged-oop', 'x modified by op(x)', case)
         for mode, isout in (('ip', isout_ip), ('alias', isout_al)):
+            if res[mode].status == 'skipped':
+                continue
             if res[mode].status != 'ok':
                 ctx.violation(key + ' check=' + mode, '{} call raises {}'.format(
                     mode, res[mode].status), case)
@@ -1391,6 +1422,8 @@ def eval_tree(ctx, case, lines, pend):
                             bits(EPS_CCL1),
                             bl(data['g']), bl(data['sig']), bl(data['lo']), bl(data['up']))
     for mode in ('oop', 'ip', 'alias'):
+        if res[mode].status == 'skipped':
+            continue
         lines.append('tree mode={} {}'.format(mode, base))
         pend.append((case, shape, mode, res[mode], xa[mode]))
 
@@ -1444,7 +1477,7 @@ def run_trees(ctx, count):
                          'x after={}'.format(parse_bl(f['x'])[:6]), stream='tree')
 
 
-TREE_BRANCHES = ('S', 'C', 'P', 'V', 'l', 'r', 'lv', 'rv', 'fl', 'scal', 'const', 'mult', 'pow', 'zero',
+TREE_BRANCHES = ('S', 'C', 'P', 'V', 'l', 'r', 'lv', 'rv', 'fl', 'accum', 'scal', 'const', 'mult', 'pow', 'zero',
                  'modsq', 'prox', 'real', 'inner', 'fmult')
 
 
@@ -1530,7 +1563,7 @@ def eval_pso(ctx, case, lines, pend):
     xa['ip'] = snapshot(x)
     ret_ok = {'ip': res['ip'].obj is y}
     modes = ['oop', 'ip']
-    if kind == 'diag':
+    if kind == 'diag' and not any('accum' in t for _, _, t in case['blocks']):
         x = mkx()
         res['alias'] = safe_call(op, x, out=x)
         xa['alias'] = None
@@ -1646,13 +1679,135 @@ def run_pso(ctx, count):
                              stream='pso')
 
 
+# ---------------------------------------------------------------------------
+# wrapper strata: every expression / product-space class with an in-place branch, called in
+# place (x and out DISTINCT) with a leaf directly underneath that obeys the call protocol but is
+# NOT alias safe, with and without the cached-temporary constructor arguments. A wrapper that
+# hands `out` (or `x`) instead of a fresh temporary to its operand shows up here.
+
+STRATA_LEAVES = ('accum', 'accum-junk', 'laplacian', 'partial', 'rosenbrock-grad', 'matrix')
+STRATA_WRAPPERS = ('Sum', 'Sum[tmp_ran,tmp_dom]', 'VectorSum', 'Comp', 'Comp[tmp]', 'PointwiseProduct',
+                   'LeftScalarMult', 'RightScalarMult', 'RightScalarMult[tmp]', 'LeftVectorMult',
+                   'RightVectorMult', 'ProductSpaceOperator', 'Broadcast', 'Reduction', 'Diagonal')
+
+
+def strata_leaves():
+    import odl
+    d2 = odl.uniform_discr([0, 0], [1, 1], (4, 3))
+    r4, r3, r2 = odl.rn(4), odl.rn(3), odl.rn(2)
+    return [
+        ('accum', r4, lambda: synth_accum(r4, 2.0)),
+        ('accum-junk', r4, lambda: synth_accum(r4, -1.5, junk=1024.0)),
+        ('laplacian', d2, lambda: odl.Laplacian(d2)),
+        ('partial', d2, lambda: odl.PartialDerivative(d2, 0)),
+        ('rosenbrock-grad', r2, lambda: odl.solvers.RosenbrockFunctional(r2).gradient),
+        ('matrix', r3, lambda: odl.MatrixOperator(np.array([[0.0, 1, 0], [2, 0, 0.5], [1, 0, -1]]))),
+    ]
+
+
+def run_wrapper_strata(ctx, reps, only=None):
+    """`only` = (leaf name, stratum seed) replays exactly one recorded stratum."""
+    import odl
+    import random
+    for lname, X, mkL in strata_leaves():
+        if only is not None and only[0] != lname:
+            continue
+        for rep in range(reps):
+            sseed = ctx.rng.getrandbits(48) if only is None else only[1]
+            rng = random.Random(sseed)     # vector, scalar, inputs, prefills: functions of sseed
+            L = mkL()
+            v = rand_elem(X, rng)
+            vv = snapshot(v)
+            c = rng.choice([2.0, -0.5, 3.0])
+            X2 = odl.ProductSpace(X, 2)
+            n = len(vv)
+
+            def Lf(a):          # the leaf alone, out-of-place, on flat values
+                return snapshot(L(elem_from_flat(X, a)))
+            one = lambda a: a            # noqa
+            wr = [
+                ('Sum', lambda: odl.OperatorSum(L, L), X, lambda a: Lf(a) + Lf(a)),
+                ('Sum[tmp_ran,tmp_dom]', lambda: odl.OperatorSum(L, L, tmp_ran=X.element(),
+                                                                 tmp_dom=X.element()),
+                 X, lambda a: Lf(a) + Lf(a)),
+                ('VectorSum', lambda: odl.OperatorVectorSum(L, v), X, lambda a: Lf(a) + vv),
+                ('Comp', lambda: odl.OperatorComp(L, L), X, lambda a: Lf(Lf(a))),
+                ('Comp[tmp]', lambda: odl.OperatorComp(L, L, tmp=X.element()), X,
+                 lambda a: Lf(Lf(a))),
+                ('PointwiseProduct', lambda: odl.OperatorPointwiseProduct(L, L), X,
+                 lambda a: Lf(a) * Lf(a)),
+                ('LeftScalarMult', lambda: odl.OperatorLeftScalarMult(L, c), X, lambda a: c * Lf(a)),
+                ('RightScalarMult', lambda: odl.OperatorRightScalarMult(L, c), X,
+                 lambda a: Lf(c * a)),
+                ('RightScalarMult[tmp]', lambda: odl.OperatorRightScalarMult(L, c, tmp=X.element()),
+                 X, lambda a: Lf(c * a)),
+                ('LeftVectorMult', lambda: odl.OperatorLeftVectorMult(L, v), X, lambda a: Lf(a) * vv),
+                ('RightVectorMult', lambda: odl.OperatorRightVectorMult(L, v), X,
+                 lambda a: Lf(a * vv)),
+                ('ProductSpaceOperator', lambda: odl.ProductSpaceOperator([[L, L], [None, L]]), X2,
+                 lambda a: np.concatenate([Lf(a[:n]) + Lf(a[n:]), Lf(a[n:])])),
+                ('Broadcast', lambda: odl.BroadcastOperator(L, L), X,
+                 lambda a: np.concatenate([Lf(a), Lf(a)])),
+                ('Reduction', lambda: odl.ReductionOperator(L, L), X2,
+                 lambda a: Lf(a[:n]) + Lf(a[n:])),
+                ('Diagonal', lambda: odl.DiagonalOperator(L, L), X2,
+                 lambda a: np.concatenate([Lf(a[:n]), Lf(a[n:])])),
+            ]
+            for wname, mkw, dom, expect in wr:
+                label = 'wrapper-stratum/{}/{}'.format(wname, lname)
+                try:
+                    W = mkw()
+                except Exception as e:  # noqa
+                    ctx.disagree({'kind': 'stratum', 'label': label},
+                                 'cannot build: {}: {}'.format(type(e).__name__, str(e)[:80]),
+                                 'stratum expected', stream='wrapper-stratum')
+                    continue
+                x = rand_elem(dom, rng)
+                x0 = snapshot(x)
+                want = expect(x0.copy())
+                case = {'kind': 'stratum', 'wrapper': wname, 'leaf': lname, 'sseed': sseed,
+                        'x': enc_vals(x0)}
+                key = 'stratum {} over {}'.format(wname, lname)
+                ref = safe_call(W, x)
+                ctx.hit(label)
+                ctx.case(('stratum', wname, lname) if ref.status == 'ok' and np.any(ref.val != 0)
+                         else None)
+                if ref.status != 'ok':
+                    ctx.violation(key + ' check=raises-on-valid-input', 'op(x) raises ' + ref.status,
+                                  case)
+                    continue
+                if not same(ref.val, want):
+                    ctx.violation(key + ' check=oop-value', 'op(x) = {} but composing the leaf gives '
+                                  '{}'.format(ref.val[:6], want[:6]), case)
+                for pre in ('nan', 'garbage'):
+                    y = filled(W.range, pre, rng)
+                    o = safe_call(W, x, out=y)
+                    if o.status != 'ok':
+                        ctx.violation(key + ' check=in-place-raises', 'op(x, out=y) raises ' + o.status,
+                                      case)
+                        break
+                    if o.obj is not y:
+                        ctx.violation(key + ' check=returns-out', 'op(x, out=y) did not return y',
+                                      case)
+                    if not same(snapshot(y), want):
+                        ctx.violation(key + ' check=in-place-equals-oop prefill=' + pre,
+                                      'op(x, out=y) = {} differs from op(x) = {} (leaf obeys the '
+                                      'protocol but is not alias safe: the wrapper must pass it a '
+                                      'fresh temporary)'.format(snapshot(y)[:6], want[:6]), case)
+                    if not bitsame(snapshot(x), x0):
+                        ctx.violation(key + ' check=input-unchanged-ip', 'x modified by op(x, out=y)',
+                                      case)
+                        break
+
+
 EXPECTED_BRANCHES = (
     ['tree/' + t for t in TREE_BRANCHES] +
     ['pso/{}/{}'.format(k, m) for k in ('pso', 'bcast', 'red', 'proj', 'projadj')
      for m in ('oop', 'ip')] + ['pso/diag/' + m for m in ('oop', 'ip', 'alias')] +
     ['dispatch/oop/' + o for o in ('ok', 'err:domain', 'err:range', 'err:type', 'err:value')] +
     ['dispatch/ip/' + o for o in ('ok', 'err:domain', 'err:range', 'err:value')] +
-    ['dispatch/dual/' + o for o in ('ok', 'err:domain', 'err:range', 'err:type', 'err:value')])
+    ['dispatch/dual/' + o for o in ('ok', 'err:domain', 'err:range', 'err:type', 'err:value')] +
+    ['wrapper-stratum/{}/{}'.format(w, l) for w in STRATA_WRAPPERS for l in STRATA_LEAVES])
 
 
 def report_unhit(ctx):
@@ -1672,6 +1827,7 @@ def run(ctx):
     run_dispatch(ctx)
     run_trees(ctx, 150 if ctx.quick else 4000)
     run_pso(ctx, 120 if ctx.quick else 2500)
+    run_wrapper_strata(ctx, 1 if ctx.quick else 12)
     run_zoo(ctx, deep=not ctx.quick)
     if not ctx.quick:
         for _ in range(2):   # further input draws for every instance
@@ -1686,6 +1842,7 @@ def search(ctx, broken):
     run_zoo(ctx, deep=True)
     run_trees(ctx, 1500)
     run_pso(ctx, 1000)
+    run_wrapper_strata(ctx, 10)
 
 
 def replay(ctx, case):
@@ -1715,6 +1872,11 @@ def replay(ctx, case):
         sub = Ctx2()
         run_dispatch(sub, cases=[{k: v for k, v in case.items() if k != 'kind'}], model=False)
         return sub.violations[0]['what'] if sub.violations else None
+    if case.get('kind') == 'stratum':
+        sub = Ctx2()
+        run_wrapper_strata(sub, 1, only=(case['leaf'], case['sseed']))
+        hits = [v for v in sub.violations if v['replay'].get('wrapper') == case.get('wrapper')]
+        return hits[0]['what'] if hits else None
     if case.get('kind') == 'pso':
         sub = Ctx2()
         eval_pso(sub, case, None, None)
